@@ -158,6 +158,10 @@ func FindInsertionPoints(
 
 			// each value in the result contributes an insertion point
 			for entryI, iEntry := range rootList {
+				// a nullable list can contain null entries, there is nothing to stitch into them
+				if iEntry == nil {
+					continue
+				}
 				resultEntry, ok := iEntry.(map[string]interface{})
 				if !ok {
 					return nil, errors.New("entry in result wasn't a map")
